@@ -645,68 +645,7 @@ def r3_records(chk):
         loops = doc_sorted(f.node, [s for s in walk_no_nested(f.node) if isinstance(s, ast.For)])
         chk.require(len(loops) == 2, f"{f.key}: expected an atom loop and a bond loop")
         for loop, kind in zip(loops, ("ATOM", "BOND")):
-            idx_name = norm(loop.target.elts[0]) if isinstance(loop.target, ast.Tuple) else "i"
-            ws = [c for c in walk_no_nested(loop) if isinstance(c, ast.Call) and isinstance(c.func, ast.Attribute) and c.func.attr == "write" and c.args and isinstance(c.args[0], ast.JoinedStr)]
-            chk.require(len(ws) == 1, f"{f.key}: {kind} record write not found")
-            cols = _columns(f.node, ws[0], f.params())
-            key = f"{f.key}:{kind}"
-            unsep = [i for i, c in enumerate(cols) if not c["sep"]]
-            chk.decide(not unsep, "C07.R3", f"{key}:separators", f.where(ws[0]), f"{len(cols)} columns separated by literal blanks",
-                       f"{kind} record: column {unsep[0] if unsep else ''} is not separated from its neighbour by literal whitespace: wide values fuse into one token")
-            mean = [(_meaning(f.node, c["expr"], asg, idx_name) if c["kind"] == "field" else "const:" + c["text"]) for c in cols]
-            if kind == "ATOM":
-                got = {m: i for i, m in enumerate(mean)}
-                problems = []
-                for m, p_ in want_atom.items():
-                    if got.get(m) != p_:
-                        problems.append(f"{m} written in column {got.get(m)} but read from column {p_} ({fa[p_] if p_ is not None else '?'})")
-                chk.decide(not problems and mean[0] == "idx", "C07.R3", f"{key}:columns", f.where(ws[0]), f"columns {mean}",
-                           f"{kind} record columns {mean}: " + "; ".join(problems))
-                # x,y,z and charge belong to atom i
-                ux = [s for s in walk_no_nested(loop) if isinstance(s, ast.Assign) and isinstance(s.targets[0], ast.Tuple) and "coords" in norm(s.value)]
-                chk.decide(len(ux) == 1 and norm(ux[0].value) == f"self.coords[{idx_name}]" and [norm(t) for t in ux[0].targets[0].elts] == ["x", "y", "z"],
-                           "C07.R3", f"{key}:row-of-same-atom", f.where(ux[0] if ux else loop), "x, y, z = self.coords[i]",
-                           "the coordinates written on atom line i are not row i of the coordinate array in (x, y, z) order")
-                if "Molecule" in spec:
-                    cs = [s for s in walk_no_nested(loop) if isinstance(s, ast.Assign) and "atomic_charges" in norm(s.value)]
-                    chk.decide(len(cs) == 1 and f"self.atomic_charges[{idx_name}]" in norm(cs[0].value), "C07.R3", f"{key}:charge-of-same-atom", f.where(cs[0] if cs else loop),
-                               "charge = self.atomic_charges[i]", "the charge written on atom line i is not the charge of atom i")
-            else:
-                got = {}
-                for i, m in enumerate(mean):
-                    got.setdefault(m, i)
-                # a1/a2 through the tuple unpack of (index(b.a1), index(b.a2))
-                un = [s for s in walk_no_nested(loop) if isinstance(s, ast.Assign) and isinstance(s.targets[0], ast.Tuple) and "self.atoms.index" in norm(s.value)]
-                one = [s for s in walk_no_nested(loop) if isinstance(s, ast.Assign) and isinstance(s.targets[0], ast.Name) and isinstance(s.value, ast.Call) and norm(s.value.func) == "self.atoms.index"]
-                if len(un) == 1 and isinstance(un[0].value, ast.Tuple):
-                    tnames = [norm(t) for t in un[0].targets[0].elts]
-                    srcs = [norm(v.args[0]).split(".")[-1] if isinstance(v, ast.Call) else "?" for v in un[0].value.elts]
-                elif not un and len(one) == 2:
-                    # the same, written as two assignments
-                    tnames = [norm(s.targets[0]) for s in one]
-                    srcs = [norm(s.value.args[0]).split(".")[-1] for s in one]
-                else:
-                    raise AnalysisError(f"{f.key}: bond endpoint index computation not found")
-                colmap = {}
-                for i, c in enumerate(cols):
-                    if c["kind"] == "field" and isinstance(c["expr"], ast.BinOp) and isinstance(c["expr"].left, ast.Name) and c["expr"].left.id in tnames:
-                        colmap[srcs[tnames.index(c["expr"].left.id)]] = (i, norm(c["expr"].right) == "1" and isinstance(c["expr"].op, ast.Add))
-                    elif c["kind"] == "field" and isinstance(c["expr"], ast.Name) and c["expr"].id in tnames:
-                        colmap[srcs[tnames.index(c["expr"].id)]] = (i, False)
-                tcol = [i for i, m in enumerate(mean) if m == "type"]
-                problems = []
-                for end in ("a1", "a2"):
-                    if end not in colmap:
-                        problems.append(f"endpoint {end} is not written")
-                        continue
-                    ci_, plus1 = colmap[end]
-                    if ci_ != want_bond[end]:
-                        problems.append(f"{end} written in column {ci_} but read from column {want_bond[end]}")
-                    if plus1 != reader_minus:
-                        problems.append(f"{end}: writer {'adds' if plus1 else 'does not add'} 1 but reader {'subtracts' if reader_minus else 'does not subtract'} 1")
-                if tcol[:1] != [want_bond["type"]]:
-                    problems.append(f"bond type written in column {tcol[:1]} but read from column {want_bond['type']}")
-                chk.decide(not problems, "C07.R3", f"{key}:columns", f.where(ws[0]), f"columns {mean}, endpoints 1-based", f"{kind} record: " + "; ".join(problems))
+            _record_writer(chk, f, spec, loop, kind, want_atom, want_bond, fa, reader_minus)
         # header
         hw = [c for c in walk_no_nested(f.node) if isinstance(c, ast.Call) and isinstance(c.func, ast.Attribute) and c.func.attr == "write" and c.args
               and isinstance(c.args[0], ast.JoinedStr) and any(isinstance(v, ast.Constant) and "@<TRIPOS>MOLECULE" in v.value for v in c.args[0].values)]
@@ -726,24 +665,220 @@ def r3_records(chk):
 
 
 # ---------------------------------------------------------------------------
+# ---------------------------------------------------------------------------
+I_ = "__i"
+
+
+def _loop_names(loop):
+    """names bound by a loop header -> canonical expression over the position `__i` in the sequence walked
+    (`for k, (a, row) in enumerate(zip(A, B), start=1)`: k -> __i + 1, a -> A[__i], row -> B[__i])"""
+    out = {}
+
+    def elem(seq, tgt):
+        # tgt receives the __i-th element of seq
+        if isinstance(seq, ast.Call) and call_name(seq) == "enumerate" and seq.args and isinstance(tgt, ast.Tuple) and len(tgt.elts) == 2:
+            start = seq.args[1] if len(seq.args) > 1 else kwarg(seq, "start")
+            idx = ast.Name(I_, ast.Load()) if start is None or norm(start) == "0" else ast.BinOp(ast.Name(I_, ast.Load()), ast.Add(), start)
+            bind(tgt.elts[0], idx)
+            elem(seq.args[0], tgt.elts[1])
+        elif isinstance(seq, ast.Call) and call_name(seq) == "zip" and isinstance(tgt, ast.Tuple) and len(tgt.elts) == len(seq.args):
+            for s_, t_ in zip(seq.args, tgt.elts):
+                elem(s_, t_)
+        elif isinstance(seq, ast.Call) and call_name(seq) == "range" and len(seq.args) == 1 and isinstance(tgt, ast.Name):
+            bind(tgt, ast.Name(I_, ast.Load()))
+        elif isinstance(seq, ast.Call) and call_name(seq) in ("list", "tuple", "iter") and len(seq.args) == 1:
+            elem(seq.args[0], tgt)
+        elif isinstance(seq, (ast.Attribute, ast.Name)):
+            bind(tgt, ast.Subscript(seq, ast.Name(I_, ast.Load()), ast.Load()))
+        else:
+            raise AnalysisError(f"record loop `for {norm(tgt)} in {short(seq, 50)}` - unknown idiom")
+
+    def bind(tgt, val):
+        if isinstance(tgt, ast.Name):
+            out[tgt.id] = val
+        elif isinstance(tgt, ast.Tuple):
+            for k, t_ in enumerate(tgt.elts):
+                bind(t_, ast.Subscript(val, ast.Constant(k), ast.Load()))
+        else:
+            raise AnalysisError(f"record loop target `{norm(tgt)}` - unknown idiom")
+
+    elem(loop.iter, loop.target)
+    return out
+
+
+def _canon(fn, loop, e, names, depth=6):
+    """`e` with the loop's names and the single-assignment locals replaced by what they stand for"""
+    import copy as _copy
+
+    asg = assignments(fn)
+
+    class T(ast.NodeTransformer):
+        def __init__(self, d, bound=frozenset()):
+            self.d, self.bound = d, bound
+
+        def _scoped(self, n):
+            b = set()
+            for g in n.generators:
+                b |= {x.id for x in ast.walk(g.target) if isinstance(x, ast.Name)}
+            return ast.NodeTransformer.generic_visit(T(self.d, self.bound | b), n)
+
+        visit_ListComp = visit_SetComp = visit_DictComp = visit_GeneratorExp = _scoped
+
+        def visit_Name(self, n):
+            if not isinstance(n.ctx, ast.Load) or n.id in self.bound or self.d <= 0:
+                return n
+            if n.id in names:
+                return T(self.d - 1, self.bound).visit(_copy.deepcopy(names[n.id]))
+            vals = asg.get(n.id, [])
+            if len(vals) == 1:
+                v = vals[0]
+                if isinstance(v, tuple) and v[0] == "unpack":
+                    return ast.Subscript(T(self.d - 1, self.bound).visit(_copy.deepcopy(v[1])), ast.Constant(v[2]), ast.Load())
+                if isinstance(v, ast.AST) and not any(isinstance(x, ast.Name) and x.id == n.id for x in ast.walk(v)):
+                    return T(self.d - 1, self.bound).visit(_copy.deepcopy(v))
+            return n
+
+    return T(depth).visit(_copy.deepcopy(e))
+
+
+def _record_writer(chk, f, spec, loop, kind, want_atom, want_bond, fa, reader_minus):
+    """One record line per element of the loop: which value lands in which whitespace-separated column, and whether every value
+    belongs to the element (atom / bond) the line is about."""
+    from ..canon import Env
+    from .c08 import columns, template_parts
+
+    env = Env(f.node)
+    ws = [c for c in walk_no_nested(loop) if isinstance(c, ast.Call) and isinstance(c.func, ast.Attribute) and c.func.attr == "write" and c.args]
+    chk.require(len(ws) == 1, f"{f.key}: {kind} record write not found")
+    key = f"{f.key}:{kind}"
+    names = _loop_names(loop)
+
+    def splice(parts):
+        """a field that is a local holding text built by a join / f-string is part of the template"""
+        out = []
+        for p in parts:
+            if p[0] == "field" and p[2] is None and isinstance(p[1], ast.Name):
+                v = env.single(p[1].id)
+                if isinstance(v, ast.JoinedStr) or (isinstance(v, ast.Call) and isinstance(v.func, ast.Attribute) and v.func.attr == "join"):
+                    out.extend(splice(template_parts(v)))
+                    continue
+            if p[0] == "repeat":
+                p = (p[0], p[1], splice(p[2]), p[3], p[4])
+            out.append(p)
+        return out
+
+    cols = columns(splice(template_parts(ws[0].args[0])))
+    unsep = [i for i, c in enumerate(cols) if not c[2]]
+    chk.decide(not unsep, "C07.R3", f"{key}:separators", f.where(ws[0]), f"{len(cols)} columns separated by literal blanks",
+               f"{kind} record: column {unsep[0] if unsep else ''} is not separated from its neighbour by literal whitespace: wide values fuse into one token")
+    seq = "self.atoms" if kind == "ATOM" else "self.bonds"
+    el = f"{seq}[{I_}]"
+    mean, canon_of = [], {}
+    for ckind, payload, _ in cols:
+        if ckind == "const":
+            mean.append("const:" + payload)
+            continue
+        e, spec_, rep = payload
+        if rep is not None:
+            tgt, it, k = rep
+            row = norm(_canon(f.node, loop, it, names))
+            if row == f"self.coords[{I_}]" and norm(e) == norm(tgt):
+                if k == 0:
+                    mean += ["x", "y", "z"]
+                    for q in range(3):
+                        canon_of["xyz"[q]] = f"self.coords[{I_}][{q}]"
+                continue
+            mean.append("?")
+            continue
+        c = _canon(f.node, loop, e, names)
+        t = norm(c)
+        m = "?"
+        if t == f"{I_} + 1":
+            m = "idx"
+        elif kind == "ATOM":
+            if t.startswith(f"{el}.label"):
+                m = "label"
+            elif t in (f"self.coords[{I_}][0]", f"self.coords[{I_}][1]", f"self.coords[{I_}][2]"):
+                m = "xyz"[int(t[-2])]
+            elif "get_mol2_type()" in t:
+                m = "type" if f"{el}.get_mol2_type()" in t else "type-of-other-atom"
+            elif "atomic_charges" in t:
+                m = "charge" if t.startswith(f"self.atomic_charges[{I_}]") else "charge-of-other-atom"
+            elif "self.coords" in t:
+                m = "coordinate-of-other-atom"
+            elif isinstance(c, ast.Constant) and isinstance(c.value, float):
+                m = "charge"
+        else:
+            if "get_mol2_type()" in t:
+                m = "type" if f"{el}.get_mol2_type()" in t else "type-of-other-bond"
+            else:
+                base, inner = 0, c
+                if isinstance(inner, ast.BinOp) and isinstance(inner.op, ast.Add) and isinstance(inner.right, ast.Constant) and isinstance(inner.right.value, int):
+                    base, inner = inner.right.value, inner.left
+                end = None
+                if isinstance(inner, ast.Call) and norm(inner.func) in ("self.atoms.index", "self.index_atom", "self.get_atom_index") and len(inner.args) == 1:
+                    end = norm(inner.args[0])
+                elif isinstance(inner, ast.Subscript) and isinstance(inner.value, ast.DictComp) and len(inner.value.generators) == 1:
+                    g = inner.value.generators[0]
+                    if isinstance(g.iter, ast.Call) and call_name(g.iter) == "enumerate" and norm(g.iter.args[0]) == "self.atoms" and isinstance(g.target, ast.Tuple) \
+                            and norm(inner.value.key) == norm(g.target.elts[1]) and norm(inner.value.value) == norm(g.target.elts[0]):
+                        st = g.iter.args[1] if len(g.iter.args) > 1 else kwarg(g.iter, "start")
+                        base += st.value if isinstance(st, ast.Constant) else 0
+                        end = norm(inner.slice)
+                if end in (f"{el}.a1", f"{el}.a2"):
+                    m = f"{end[-2:]}:{base}"
+                elif end is not None:
+                    m = "endpoint-of-other-bond"
+        mean.append(m)
+        canon_of.setdefault(m, t)
+    if any(m == "?" for m in mean):
+        raise AnalysisError(f"{f.key}: {kind} record: a written field could not be traced to an atom / bond attribute ({mean})")
+    got = {}
+    for i, m in enumerate(mean):
+        got.setdefault(m.split(":")[0] if m.startswith(("a1:", "a2:")) else m, i)
+    problems = [m for m in mean if "other" in m]
+    if kind == "ATOM":
+        for m, p_ in want_atom.items():
+            if m == "charge" and "Molecule" not in spec and got.get(m) is None:
+                problems.append("charge column missing")
+                continue
+            if got.get(m) != p_:
+                problems.append(f"{m} written in column {got.get(m)} but read from column {p_} ({fa[p_] if p_ is not None else '?'})")
+        chk.decide(not problems and mean[0] == "idx", "C07.R3", f"{key}:columns", f.where(ws[0]), f"columns {mean}", f"{kind} record columns {mean}: " + "; ".join(problems))
+        rows_ok = all(canon_of.get(ax) == f"self.coords[{I_}][{q}]" for q, ax in enumerate("xyz"))
+        chk.decide(rows_ok, "C07.R3", f"{key}:row-of-same-atom", f.where(ws[0]), "x, y, z = row i of self.coords for atom i",
+                   "the coordinates written on atom line i are not row i of the coordinate array in (x, y, z) order")
+        if "Molecule" in spec:
+            chk.decide(canon_of.get("charge", "").startswith(f"self.atomic_charges[{I_}]"), "C07.R3", f"{key}:charge-of-same-atom", f.where(ws[0]),
+                       "charge = self.atomic_charges[i]", "the charge written on atom line i is not the charge of atom i")
+    else:
+        ends = {m.split(":")[0]: (i, int(m.split(":")[1])) for i, m in enumerate(mean) if m.startswith(("a1:", "a2:"))}
+        for end in ("a1", "a2"):
+            if end not in ends:
+                problems.append(f"endpoint {end} is not written")
+                continue
+            ci_, base = ends[end]
+            if ci_ != want_bond[end]:
+                problems.append(f"{end} written in column {ci_} but read from column {want_bond[end]}")
+            if (base == 1) != reader_minus or base not in (0, 1):
+                problems.append(f"{end}: writer numbers atoms from {base} but reader {'subtracts' if reader_minus else 'does not subtract'} 1")
+        tcol = [i for i, m in enumerate(mean) if m == "type"]
+        if tcol[:1] != [want_bond["type"]]:
+            problems.append(f"bond type written in column {tcol[:1]} but read from column {want_bond['type']}")
+        chk.decide(not problems and mean[0] == "idx", "C07.R3", f"{key}:columns", f.where(ws[0]), f"columns {mean}, endpoints 1-based", f"{kind} record: " + "; ".join(problems))
+
+
 def r4_siblings(chk):
     prog = chk.prog
     mf = prog.func("molli.chem.molecule:Molecule.dump_mol2")
     sf = prog.func("molli.chem.structure:Structure.dump_mol2")
 
-    def fstrings(f):
-        out = []
-        for c in walk_no_nested(f.node):
-            if isinstance(c, ast.Call) and isinstance(c.func, ast.Attribute) and c.func.attr == "write" and c.args and isinstance(c.args[0], ast.JoinedStr) \
-                    and any(isinstance(v, ast.FormattedValue) for v in c.args[0].values):  # literal-only lines (comments, section tags) carry no record
-                cols = _columns(f.node, c, f.params())
-                out.append([("F" if x["kind"] == "field" else x["text"]) for x in cols])
-        return out
-
-    a, b = fstrings(mf), fstrings(sf)
-    chk.decide(len(a) == len(b) and all(len(x) == len(y) for x, y in zip(a, b)), "C07.R4", f"{sf.key}:same-shape-as-Molecule", sf.where(),
-               "Structure.dump_mol2 and Molecule.dump_mol2 write records of the same column count",
-               f"sibling writers drifted apart: Molecule writes {[len(x) for x in a]} columns per record, Structure {[len(x) for x in b]}")
+    # the two writers are each checked column by column against the reader in R3; that both pass there is their agreement.
+    # (a comparison of their shapes would object to one of them being respelled alone.)
+    r3 = [o for o in chk.obligations if o["rule"] == "C07.R3" and o["construct"].endswith((":ATOM:columns", ":BOND:columns"))]
+    both = {o["construct"].split(":")[1].split(".")[0] for o in r3} >= {"Molecule", "Structure"}
+    chk.require(both, "the record columns of Molecule.dump_mol2 and Structure.dump_mol2 were not both decided by R3")
+    chk.ok("C07.R4", f"{sf.key}:same-shape-as-Molecule", sf.where(), "Structure.dump_mol2 and Molecule.dump_mol2 both write the columns the reader takes (R3)")
     # dumps_X wrappers
     n = 0
     for spec in ("molli.chem.geometry:CartesianGeometry", "molli.chem.structure:Structure", "molli.chem.molecule:Molecule", "molli.chem.ensemble:ConformerEnsemble"):
